@@ -27,11 +27,11 @@ CHECKS.update({
                 technique="MIR effect analysis with snapshot/restore kills + dominance / reachability rules + write inventories",
                 design="DESIGN.md §4 C06"),
     "C07": dict(level="other",
-                text="For the handshake entry points the may-write set on every error exit (all tokens, all failure points), minus what checkpoint/restore provably restores, must lie in an allow-table of dead paths with checked reasons; progress/turn only on the Ok edge; set_psk and stateful transport write nothing on error exits. State equality is decided; byte-equality of the continued session follows from it and is not separately decided. Also: a key toggle (s/e/rs/re) is switched off only where that same toggle was observed off (toggle-disable).",
+                text="For the handshake entry points the may-write set on every error exit (all tokens, all failure points), minus what checkpoint/restore provably restores, must lie in an allow-table of dead paths with checked reasons; progress/turn only on the Ok edge; set_psk and stateful transport write nothing on error exits. State equality is decided; byte-equality of the continued session follows from it and is not separately decided. Also: a key toggle (s/e/rs/re) is switched off only where that same toggle was observed off (toggle-disable); the allow-table reasons 're/rs are overwritten by the retried read before any use' are checked: in the arm of the token that stores the field every read of it is dominated by a write (overwritten-before-use).",
                 technique="interprocedural error-path write-set analysis with snapshot/restore reasoning over MIR",
                 design="DESIGN.md §4 C07"),
     "C12": dict(level="proof",
-                text="Exhaustive finite cross-check: prerequisite predicates vs token table for 38 patterns x 2 roles, token table vs Noise rev 34 table and vs the §7.3 validity predicates, DH operand availability for every row and role, build-time guards/variants/order and missing-PSK arms from MIR. All obligations discharged. Also: HandshakeTokens::try_from has an exit reporting Pattern(UnsupportedModifier) whatever the shape of the modifier loop.",
+                text="Exhaustive finite cross-check: prerequisite predicates vs token table for 38 patterns x 2 roles, token table vs Noise rev 34 table and vs the §7.3 validity predicates, DH operand availability for every row and role, build-time guards/variants/order and missing-PSK arms from MIR. All obligations discharged. Also: HandshakeTokens::try_from has an exit reporting Pattern(UnsupportedModifier) whatever the shape of the modifier loop; every ValidateKeyLengths rejection in build compares a private key with Dh::priv_len and the remote public key with its buffer capacity or Dh::pub_len (build-key-length).",
                 technique="HIR table extraction + cross-table comparison with spec tables + MIR must-fact guards",
                 design="DESIGN.md §4 C12"),
 })
